@@ -1340,7 +1340,11 @@ def explore(harness, name=None, max_paths=100000, time_budget=600.0, workers=Non
                         and time.time() - t0 < time_budget:
                     # hand out up to a few prefixes per task once the frontier is wide
                     k = 1 if len(queue) < workers * 4 else min(8, len(queue) // (workers * 2))
-                    batch = [queue.pop() for _ in range(max(1, k))]
+                    batch = []
+                    for _ in range(max(1, k)):
+                        j = rnd.randrange(len(queue))
+                        queue[j], queue[-1] = queue[-1], queue[j]
+                        batch.append(queue.pop())
                     outstanding.append(pool.apply_async(
                         explore_chunk, ((name, batch, chunk_s, max(1, (max_paths - total.paths)), opts),)))
                 if not outstanding:
@@ -1354,8 +1358,6 @@ def explore(harness, name=None, max_paths=100000, time_budget=600.0, workers=Non
                     r, left = o.get()
                     total.merge(r)
                     queue.extend(left)
-                if seed:
-                    rnd.shuffle(queue)
         finally:
             pool.terminate()
             pool.join()
